@@ -364,6 +364,7 @@ func (idx *IVFPQIndex) Remove(vector VectorNode) error {
 	}
 	alreadyDeleted := idx.deletedNodes.Contains(id)
 	idx.mu.RUnlock()
+	verifHook("ivfpq.remove.checked", id)
 
 	// Fast-fail validation outside of write lock
 	if !exists {
@@ -547,6 +548,7 @@ func (idx *IVFPQIndex) WriteTo(w io.Writer) (int64, error) {
 		return 0, fmt.Errorf("failed to flush before serialization: %w", err)
 	}
 
+	verifHook("ivfpq.writeto.flushed")
 	idx.mu.RLock()
 	defer idx.mu.RUnlock()
 
